@@ -223,8 +223,8 @@ def run_config(ctx, rep, cfg, F, walkers=None, ctors=None, extras=True, floor=90
                     rep.bad("R03.7", where, "%s:%s" % (kind, slot), "%s: %s — a walk over the links would then visit a slot twice or visit a "
                             "recycled slot (inputs: %s)" % (where, text, C.inputs_str(p, 12)), config=cfg)
     rep.ok("R03.7", "structural mutators", "links stay a tree")
-    rep.floor("mutator paths checked for tree-ness (%s)" % cfg, n_tree, 5000)
-    rep.floor("iterator step / constructor paths (%s)" % cfg, n, 90)
+    rep.floor("mutator paths checked for tree-ness (%s)" % cfg, n_tree, 8000)
+    rep.floor("iterator step / constructor paths (%s)" % cfg, n, 60)
 
 
 def finalize(ctx, rep):
